@@ -525,7 +525,7 @@ fn scenario(name: &str, n: i64) {
             }
             let (lo, hi) = if times[0] < times[1] { (times[0], times[1]) } else { (times[1], times[0]) };
             println!("TIMES mirror={:.3}s comb={:.3}s", times[0], times[1]);
-            if hi > 25.0 * lo + 3.0 {
+            if hi > 25.0 * lo + 10.0 {
                 println!(
                     "LARGE-CHECK {} one_orientation_of_the_same_input_takes_{:.0}_times_as_long_as_the_other_({:.2}s_vs_{:.2}s)",
                     name,
